@@ -16,7 +16,7 @@ import z3
 
 from pyvc.core import (SV, SInt, SBool, SSeq, Obj, Val, VNone, BoolS, IntS, Cls, to_val, to_int, to_bool_term, cls_of, sub,
                        cls_const, class_axioms, PyRaise, Unsupported, Stub)
-from pyvc.driver import Ob
+from pyvc.driver import Ob, cover_hyps
 from pyvc.ground import Q
 from pyvc.env import _MISSING
 from pyvc.expr import SCls, SText
@@ -200,7 +200,7 @@ def writer_obligations(chk):
     results = I.run_function(func, mk, max_paths=2000)
     for pi, (path, out, obls, writes, cur) in enumerate(results):
         _writer_one(chk, func, pi, path, out, cur)
-    chk.add(Ob(func, "cover", "pre", results[0][0].hyps, z3.BoolVal(True), expect="sat"))
+    chk.add(Ob(func, "cover", "pre", cover_hyps(results), z3.BoolVal(True), expect="sat"))
     chk.functions.update(q for q in I.called if q.startswith("typelib."))
     chk.extra_coverage["duration_writer_paths"] = len(results)
 
